@@ -12,9 +12,15 @@
   "Standard address" = `WF P a`: one of the three networks; a 20-byte hash, or a witness program of
   version 0..16 and 2..40 bytes (20 or 32 for version 0); optional blinding key = 33 bytes accepted by
   the key parser. Text is the list of UTF-8 bytes of the string.
+
+  Last section ("conversions, inspectors and constructors"): `EV.Model.AddressOps` —
+  `Address::{is_blinded, is_liquid, to_confidential, to_unconfidential, script_pubkey, from_script, p2pkh, p2sh,
+  p2wpkh, p2shwpkh, p2wsh, p2shwsh, p2tr, p2tr_tweaked}`, bridged to the payload level of C16 (`EV.Model.Script`)
+  and to the taproot tweak of C15 (`EV.Model.Taproot`).
 -/
 import EV.Proofs.AddrCanonical
 import EV.Proofs.AddrDetect
+import EV.Proofs.AddressOps
 namespace EV.Props.C06
 open EV EV.Bech32 EV.Base58 EV.Addr
 
@@ -194,5 +200,458 @@ example : WF { sha256d := fun _ => [], validPk := fun _ => true }
 example : WF { sha256d := fun _ => [], validPk := fun _ => true }
     { params := Gen.paramsElementsB, payload := .pkh (List.replicate 20 0), blinder := none } :=
   ⟨by decide, ⟨by decide, by intro b hb; rw [List.mem_replicate] at hb; omega⟩, trivial⟩
+
+/-! ## conversions, inspectors and constructors (model growth: `EV.Model.AddressOps`)
+
+  `Address::{is_blinded, is_liquid, to_confidential, to_unconfidential, script_pubkey, from_script, p2pkh, p2sh,
+  p2wpkh, p2shwpkh, p2wsh, p2shwsh, p2tr, p2tr_tweaked}` of /repo/src/address.rs.  Hashes and the taproot tweak are
+  parameters; the constants (which network `is_liquid` names, the field list of `AddressParams`, the `Fe32` version
+  constants, the pushed integer of the nested forms) are re-extracted on every run (tools/extract.d/c17_addrops.py).
+-/
+section ops
+open EV.Proofs.BridgeScriptAddress
+
+/-! ### (a) confidential ⇄ unconfidential -/
+
+/-- dropping the blinding key after setting one is dropping it from the original -/
+theorem unconf_of_conf (a : Address) (k : List Nat) :
+    toUnconfidential (toConfidential a k) = toUnconfidential a := rfl
+
+/-- `to_confidential` sets exactly the blinding key: network and payload are untouched, and any address with
+    that network, payload and key is the result -/
+theorem to_confidential_sets_only_key (a : Address) (k : List Nat) :
+    (toConfidential a k).params = a.params ∧ (toConfidential a k).payload = a.payload ∧
+    (toConfidential a k).blinder = some k ∧
+    ∀ b : Address, b.params = a.params → b.payload = a.payload → b.blinder = some k → b = toConfidential a k := by
+  refine ⟨rfl, rfl, rfl, ?_⟩
+  rintro ⟨p, pl, bl⟩ h1 h2 h3
+  simp only at h1 h2 h3
+  subst h1 h2 h3
+  rfl
+
+/-- `to_unconfidential` clears exactly the blinding key -/
+theorem to_unconfidential_clears_only_key (a : Address) :
+    (toUnconfidential a).params = a.params ∧ (toUnconfidential a).payload = a.payload ∧
+    (toUnconfidential a).blinder = none := ⟨rfl, rfl, rfl⟩
+
+/-- `is_blinded` ⇔ a blinding key is present -/
+theorem is_blinded_iff (a : Address) : isBlinded a = true ↔ ∃ k, a.blinder = some k := by
+  cases h : a.blinder <;> simp [isBlinded, h]
+
+theorem is_blinded_after (a : Address) (k : List Nat) :
+    isBlinded (toConfidential a k) = true ∧ isBlinded (toUnconfidential a) = false := ⟨rfl, rfl⟩
+
+/-- `to_unconfidential` is idempotent, and its fixed points are exactly the unblinded addresses -/
+theorem to_unconfidential_idempotent (a : Address) :
+    toUnconfidential (toUnconfidential a) = toUnconfidential a ∧
+    (toUnconfidential a = a ↔ isBlinded a = false) := by
+  refine ⟨rfl, ?_⟩
+  obtain ⟨p, pl, bl⟩ := a
+  cases bl <;> simp [toUnconfidential, isBlinded]
+
+/-- a later key replaces an earlier one; re-blinding with its own key restores a blinded address -/
+theorem to_confidential_overwrites (a : Address) (k k' : List Nat) :
+    toConfidential (toConfidential a k) k' = toConfidential a k' ∧
+    toConfidential (toUnconfidential a) k = toConfidential a k ∧
+    (a.blinder = some k → toConfidential (toUnconfidential a) k = a) := by
+  refine ⟨rfl, rfl, ?_⟩
+  obtain ⟨p, pl, bl⟩ := a
+  rintro h
+  simp only at h
+  subst h
+  rfl
+
+/-- the output script does not depend on the blinding key (nor on the network): both conversions commute with
+    `script_pubkey`, and addresses with the same payload have the same script -/
+theorem script_pubkey_ignores_blinding_key (a : Address) (k : List Nat) :
+    scriptPubkey (toConfidential a k) = scriptPubkey a ∧ scriptPubkey (toUnconfidential a) = scriptPubkey a ∧
+    ∀ b : Address, b.payload = a.payload → scriptPubkey b = scriptPubkey a := by
+  refine ⟨rfl, rfl, ?_⟩
+  intro b h
+  simp only [scriptPubkey, h]
+
+/-- both conversions keep an address standard (for `to_confidential`: with a key the key parser accepts) -/
+theorem conversions_keep_standard (a : Address) (k : List Nat) (h : WF P a) :
+    WF P (toUnconfidential a) ∧ (BlinderOk P (some k) → WF P (toConfidential a k)) :=
+  ⟨⟨h.net, h.payload, trivial⟩, fun hk => ⟨h.net, h.payload, hk⟩⟩
+
+/-! ### (b) text forms of the two -/
+
+/-- the printed form of `to_confidential a k` (and of `to_unconfidential a`) parses back to it — corollary of
+    `addr_roundtrip` -/
+theorem to_confidential_text_roundtrip (a : Address) (k : List Nat) (h : WF P a) (hk : BlinderOk P (some k)) :
+    fromStr P (display P (toConfidential a k)) = .ok (toConfidential a k) ∧
+    parseWithParams P (display P (toConfidential a k)) a.params = .ok (toConfidential a k) ∧
+    fromStr P (display P (toUnconfidential a)) = .ok (toUnconfidential a) ∧
+    parseWithParams P (display P (toUnconfidential a)) a.params = .ok (toUnconfidential a) := by
+  obtain ⟨hu, hc⟩ := conversions_keep_standard P a k h
+  obtain ⟨c1, c2⟩ := addr_roundtrip P _ (hc hk)
+  obtain ⟨u1, u2⟩ := addr_roundtrip P _ hu
+  exact ⟨c1, c2, u1, u2⟩
+
+/-- **`Display` is injective** on standard addresses of the three built-in networks: the string determines
+    network, payload and blinding key — corollary of `addr_roundtrip` -/
+theorem display_injective (a b : Address) (ha : WF P a) (hb : WF P b) (h : display P a = display P b) : a = b := by
+  have h1 := (addr_roundtrip P a ha).1
+  have h2 := (addr_roundtrip P b hb).1
+  rw [h, h2] at h1
+  exact (Res.ok.inj h1).symm
+
+/-- the blinded string determines (network, payload, key) -/
+theorem blinded_text_determines (a b : Address) (k k' : List Nat) (ha : WF P a) (hb : WF P b)
+    (hk : BlinderOk P (some k)) (hk' : BlinderOk P (some k'))
+    (h : display P (toConfidential a k) = display P (toConfidential b k')) :
+    a.params = b.params ∧ a.payload = b.payload ∧ k = k' := by
+  have := display_injective P _ _ ((conversions_keep_standard P a k ha).2 hk)
+    ((conversions_keep_standard P b k' hb).2 hk') h
+  simp only [toConfidential, Address.mk.injEq, Option.some.injEq] at this
+  exact this
+
+/-- blinded and unblinded forms of one payload are different strings -/
+theorem blinded_unblinded_text_differ (a : Address) (k : List Nat) (h : WF P a) (hk : BlinderOk P (some k)) :
+    display P (toConfidential a k) ≠ display P (toUnconfidential a) := by
+  intro he
+  have := display_injective P _ _ ((conversions_keep_standard P a k h).2 hk) (conversions_keep_standard P a k h).1 he
+  simp [toConfidential, toUnconfidential] at this
+
+/-- … with different human-readable parts (segwit forms): the blinded string starts with the network's blech32
+    hrp, the unblinded one with its bech32 hrp, and the two differ even up to letter case -/
+theorem blinded_unblinded_hrp_differ (a : Address) (k : List Nat) (h : WF P a) (hs : a.payload.isSegwit = true) :
+    findPrefix (display P (toConfidential a k)) = a.params.blechHrp ∧
+    findPrefix (display P (toUnconfidential a)) = a.params.bechHrp ∧
+    lower a.params.blechHrp ≠ lower a.params.bechHrp := by
+  obtain ⟨p, pl, bl⟩ := a
+  cases pl with
+  | wit ver prog =>
+    have hv : ver ≤ 16 := h.payload.1
+    exact ⟨findPrefix_display_wit P _ h.net ver prog rfl hv, findPrefix_display_wit P _ h.net ver prog rfl hv,
+      (bech_ne_blech p h.net).2⟩
+  | pkh hh => simp [Payload.isSegwit] at hs
+  | sh hh => simp [Payload.isSegwit] at hs
+
+/-- … and different version bytes (base58 forms): the blinded string carries the network's `blinded_prefix`
+    followed by the p2pkh / p2sh prefix, the unblinded one starts with the p2pkh / p2sh prefix itself -/
+theorem blinded_unblinded_version_byte_differ (a : Address) (k : List Nat) (h : WF P a) (hk : BlinderOk P (some k))
+    (hs : a.payload.isSegwit = false) :
+    ∃ v hash, (v = a.params.p2pkh ∨ v = a.params.p2sh) ∧ v ≠ a.params.blinded ∧
+      decodeCheck P.sha256d (display P (toConfidential a k)) = some (a.params.blinded :: v :: (k ++ hash)) ∧
+      decodeCheck P.sha256d (display P (toUnconfidential a)) = some (v :: hash) := by
+  obtain ⟨hu, hc⟩ := conversions_keep_standard P a k h
+  obtain ⟨p, pl, bl⟩ := a
+  obtain ⟨hd1, hd2, _⟩ := prefix_facts p h.net
+  cases pl with
+  | wit ver prog => simp [Payload.isSegwit] at hs
+  | pkh hh =>
+    exact ⟨p.p2pkh, hh, Or.inl rfl, hd1, decodeCheck_display P _ (hc hk) _ rfl, decodeCheck_display P _ hu _ rfl⟩
+  | sh hh =>
+    exact ⟨p.p2sh, hh, Or.inr rfl, hd2, decodeCheck_display P _ (hc hk) _ rfl, decodeCheck_display P _ hu _ rfl⟩
+
+/-! ### (c) networks -/
+
+/-- `is_liquid` as coded: the address's parameter VALUES equal those of `AddressParams::LIQUID`, field by field
+    (derived `PartialEq`; the `Hrp`s up to letter case) — not an identity test on the `&'static` reference -/
+theorem is_liquid_as_coded (a : Address) :
+    isLiquid a = true ↔ (a.params.p2pkh = Gen.paramsLiquidB.p2pkh ∧ a.params.p2sh = Gen.paramsLiquidB.p2sh ∧
+      a.params.blinded = Gen.paramsLiquidB.blinded ∧ lower a.params.bechHrp = lower Gen.paramsLiquidB.bechHrp ∧
+      lower a.params.blechHrp = lower Gen.paramsLiquidB.blechHrp) :=
+  paramsEq_iff a.params Gen.paramsLiquidB
+
+/-- on the three built-in networks: `is_liquid` ⇔ the address's network is LIQUID (and never for the other two) -/
+theorem is_liquid_iff (a : Address) (h : a.params ∈ Gen.allParamsB) :
+    isLiquid a = true ↔ a.params = Gen.paramsLiquidB :=
+  paramsEq_table a.params Gen.paramsLiquidB h (by decide)
+
+/-- `is_liquid` looks at the network only -/
+theorem is_liquid_ignores_key_and_payload (a b : Address) (k : List Nat) (h : b.params = a.params) :
+    isLiquid b = isLiquid a ∧ isLiquid (toConfidential a k) = isLiquid a ∧
+    isLiquid (toUnconfidential a) = isLiquid a := by
+  refine ⟨?_, rfl, rfl⟩
+  simp only [isLiquid, h]
+
+/-- **The network table separates the networks.** Over the three built-in parameter sets (as extracted): the
+    nine base58 version bytes are pairwise different, non-zero bytes; the six human-readable parts are pairwise
+    different — also after lower-casing, which is how `match_prefix` and `Hrp: PartialEq` compare — and well
+    formed; field-wise equality of two of the sets is equality. -/
+theorem network_table_distinct :
+    (Gen.allParamsB.flatMap prefixBytes).Nodup ∧ (∀ b ∈ Gen.allParamsB.flatMap prefixBytes, 0 < b ∧ b < 256) ∧
+    (Gen.allParamsB.flatMap hrps).Nodup ∧ ((Gen.allParamsB.flatMap hrps).map lower).Nodup ∧
+    (∀ h ∈ Gen.allParamsB.flatMap hrps, HrpOk h) ∧
+    (∀ p ∈ Gen.allParamsB, ∀ q ∈ Gen.allParamsB, paramsEq p q = true ↔ p = q) ∧
+    Gen.allParamsB.length = 3 := by
+  refine ⟨prefix_bytes_distinct.1, prefix_bytes_distinct.2, hrps_distinct, by decide,
+    fun h hh => (hrps_ok h hh).1, fun p hp q hq => paramsEq_table p q hp hq, rfl⟩
+
+/-- **A printed address names exactly one network.** The displayed string of a standard address parses under
+    its own network's parameters, and under no other of the three — `addr_roundtrip` composed with
+    `exactly_one_network` (whose `MixedForms` disjunct, a 32-bit checksum coincidence between a segwit string and
+    base58check, remains for segwit forms; see the next theorem for the base58 forms). -/
+theorem printed_address_names_one_network (a : Address) (h : WF P a) :
+    parseWithParams P (display P a) a.params = .ok a ∧
+    ∀ q ∈ Gen.allParamsB, ∀ b, parseWithParams P (display P a) q = .ok b →
+      q = a.params ∨ MixedForms P (display P a) := by
+  obtain ⟨h1, h2⟩ := addr_roundtrip P a h
+  exact ⟨h2, fun q hq b hb => exactly_one_network P _ a h1 q hq b hb⟩
+
+/-- … without any residual case for the base58 forms: a printed p2pkh / p2sh address (blinded or not) parses
+    under exactly its own network, and to the same address. -/
+theorem printed_base58_address_names_one_network (a : Address) (h : WF P a) (hns : a.payload.isSegwit = false)
+    (q : Gen.AddrParamsB) (hq : q ∈ Gen.allParamsB) (b : Address)
+    (hb : parseWithParams P (display P a) q = .ok b) : q = a.params ∧ b = a := by
+  obtain ⟨h1, h2⟩ := addr_roundtrip P a h
+  have hnone := fromStr_base58_no_match P _ a h1 hns
+  obtain ⟨data, hd, hfb⟩ := parseWithParams_base58 P _ q hq hnone b hb
+  obtain ⟨data', hd', hfa⟩ := parseWithParams_base58 P _ a.params h.net hnone a h2
+  rw [hd] at hd'
+  simp only [Option.some.injEq] at hd'
+  subst hd'
+  obtain ⟨_, _, ⟨b0, rest, hdat, hb0⟩, _⟩ := fromBase58_inv P data a.params a hfa
+  obtain ⟨_, _, ⟨b0', rest', hdat', hb0'⟩, _⟩ := fromBase58_inv P data q b hfb
+  rw [hdat] at hdat'
+  simp only [List.cons.injEq] at hdat'
+  obtain ⟨rfl, _⟩ := hdat'
+  have hpq : q = a.params := by
+    apply prefix_owner q a.params hq h.net b0
+    · simp only [prefixBytes, List.mem_cons, List.mem_nil_iff, or_false]; exact hb0'
+    · simp only [prefixBytes, List.mem_cons, List.mem_nil_iff, or_false]; exact hb0
+  refine ⟨hpq, ?_⟩
+  subst hpq
+  rw [hfa] at hfb
+  exact (Res.ok.inj hfb).symm
+
+/-! ### (d) pay-to-taproot -/
+
+/-- `p2tr_tweaked`: witness version 1 with the (tweaked) x-only key as the program; network and blinding key
+    as given -/
+theorem p2tr_tweaked_shape (k : Bytes) (bl : Option (List Nat)) (p : Gen.AddrParamsB) :
+    p2trTweaked k bl p = { params := p, payload := .wit 1 (natsOfBytes k), blinder := bl } ∧
+    (natsOfBytes k).length = k.length ∧ bytesOfNats (natsOfBytes k) = k :=
+  ⟨p2trTweaked_eq k bl p, natsOfBytes_length k, bytesOfNats_natsOfBytes k⟩
+
+/-- its `script_pubkey` is `OP_1 PUSH32 key` (`EV.Taproot.p2trScript`, the script C15's control blocks are
+    verified against), which C16's `is_v1_p2tr` template recognises and from which `from_script` — on payloads
+    (C16) and on whole addresses — recovers the address -/
+theorem p2tr_tweaked_script (k : Bytes) (bl : Option (List Nat)) (p : Gen.AddrParamsB) (hk : k.length = 32) :
+    scriptPubkey (p2trTweaked k bl p) = some (Taproot.p2trScript k) ∧
+    Taproot.p2trScript k = Script.witnessScript Gen.opPushnum1 k ∧
+    Script.isV1P2tr (Taproot.p2trScript k) = true ∧
+    Script.fromScript (Taproot.p2trScript k) = some (.witnessProgram 1 k) ∧
+    fromScript (Taproot.p2trScript k) bl p = some (p2trTweaked k bl p) := by
+  obtain ⟨a, b, c, d⟩ := p2trTweaked_script k bl p hk
+  exact ⟨a, (p2trScript_eq k hk).1, b, c, d⟩
+
+/-- a taproot address of a 32-byte key on a built-in network is standard, so its bech32m / blech32m text form
+    round-trips (`addr_roundtrip`) -/
+theorem p2tr_tweaked_text_roundtrip (k : Bytes) (bl : Option (List Nat)) (p : Gen.AddrParamsB) (hk : k.length = 32)
+    (hp : p ∈ Gen.allParamsB) (hb : BlinderOk P bl) :
+    WF P (p2trTweaked k bl p) ∧ fromStr P (display P (p2trTweaked k bl p)) = .ok (p2trTweaked k bl p) ∧
+    crateFlavor.variant 1 = bech32m ∧ blechFlavor.variant 1 = blech32m := by
+  have hw := p2trTweaked_wf P k bl p hk hp hb
+  exact ⟨hw, (addr_roundtrip P _ hw).1, rfl, rfl⟩
+
+/-- `p2tr` is `p2tr_tweaked` of the output key `tap_tweak` computes (parity dropped); it never returns an error,
+    and panics exactly where `tap_tweak` does -/
+theorem p2tr_is_tweaked (E : Taproot.EC) (H : Taproot.TapHashes) (key : Bytes) (root : Option Bytes)
+    (bl : Option (List Nat)) (p : Gen.AddrParamsB) :
+    (∀ q par, Taproot.tapTweak E H key root = .ok (q, par) → p2tr E H key root bl p = .ok (p2trTweaked q bl p)) ∧
+    (∀ site, Taproot.tapTweak E H key root = .panic site → p2tr E H key root bl p = .panic site) ∧
+    (∀ e, p2tr E H key root bl p ≠ .err e) := by
+  rw [p2tr_eq]
+  refine ⟨fun q par h => by rw [h], fun site h => by rw [h], fun e => ?_⟩
+  have := tapTweak_not_err E H key root
+  cases ht : Taproot.tapTweak E H key root with
+  | ok qp => intro h; cases h
+  | err e' => exact absurd ht (this e')
+  | panic s => intro h; cases h
+
+/-- the address commits to the internal key and the merkle root: its program is the key `Q` with
+    `Q = P + t·G` for `t = TapTweakHash(P ‖ root?)` (`tweak_add_check` holds, `t` is a valid scalar) -/
+theorem p2tr_commits (E : Taproot.EC) (H : Taproot.TapHashes) (key : Bytes) (root : Option Bytes)
+    (bl : Option (List Nat)) (p : Gen.AddrParamsB) (a : Address) (h : p2tr E H key root bl p = .ok a) :
+    ∃ q par, a = p2trTweaked q bl p ∧ E.scalarOk (Taproot.tweakHash H key root) = true ∧
+      E.tweakAdd key (Taproot.tweakHash H key root) = some (q, par) ∧
+      E.tweakAddCheck key q par (Taproot.tweakHash H key root) = true := by
+  rw [p2tr_eq] at h
+  cases ht : Taproot.tapTweak E H key root with
+  | ok qp =>
+    obtain ⟨q, par⟩ := qp
+    rw [ht] at h
+    exact ⟨q, par, (Res.ok.inj h).symm, tapTweak_ok E H key root q par ht⟩
+  | err e => rw [ht] at h; cases h
+  | panic s => rw [ht] at h; cases h
+
+/-- bridge to C15: the address of `(key, root)` is the taproot address of the output key of
+    `TaprootSpendInfo::new_key_spend(key, root)` — the key every control block of that spend info verifies against -/
+theorem p2tr_matches_spend_info (E : Taproot.EC) (H : Taproot.TapHashes) (key : Bytes) (root : Option Bytes)
+    (si : Taproot.SpendInfo) (h : Taproot.newKeySpend E H key root = .ok si)
+    (bl : Option (List Nat)) (p : Gen.AddrParamsB) :
+    p2tr E H key root bl p = .ok (p2trTweaked si.outputKey bl p) := by
+  unfold Taproot.newKeySpend at h
+  cases ht : Taproot.tapTweak E H key root with
+  | ok qp =>
+    obtain ⟨q, par⟩ := qp
+    rw [ht] at h
+    simp only [Res.ok.injEq] at h
+    subst h
+    exact (p2tr_is_tweaked E H key root bl p).1 q par ht
+  | err e => rw [ht] at h; cases h
+  | panic s => rw [ht] at h; cases h
+
+/-! ### scripts of whole addresses and the other constructors -/
+
+/-- `from_script` on whole addresses: the address it returns has the given network and blinding key, a standard
+    payload — the C16 payload of the script under the bridge conversion — and `script_pubkey` gives the script back -/
+theorem from_script_then_script_pubkey (s : Bytes) (bl : Option (List Nat)) (p : Gen.AddrParamsB) (a : Address)
+    (h : fromScript s bl p = some a) :
+    scriptPubkey a = some s ∧ a.params = p ∧ a.blinder = bl ∧ PayloadStd a.payload ∧
+      ∃ pl, Script.fromScript s = some pl ∧ a = toAddress p pl bl := by
+  obtain ⟨h1, h2, h3, h4, pl, h5, h6⟩ := fromScript_scriptPubkey s bl p a h
+  refine ⟨h1, h2, h3, h4, pl, h5, ?_⟩
+  obtain ⟨ap, apl, abl⟩ := a
+  simp only at h2 h3 h6
+  subst h2 h3 h6
+  rfl
+
+/-- `script_pubkey` then `from_script`: every address with a standard payload comes back, key and network included -/
+theorem script_pubkey_then_from_script (a : Address) (h : PayloadStd a.payload) :
+    ∃ s, scriptPubkey a = some s ∧ fromScript s a.blinder a.params = some a := by
+  obtain ⟨s, h1, _, h2⟩ := scriptPubkey_fromScript a h
+  exact ⟨s, h1, h2⟩
+
+/-- the address-level `script_pubkey` is C16's payload-level one under the bridge conversion -/
+theorem script_pubkey_bridge (a : Address) : scriptPubkey a = Script.scriptPubkey (ofAddrPayload a.payload) := by
+  simp only [scriptPubkey, toScript_eq]
+
+/-- `p2wpkh` / `p2shwpkh` insist on a compressed key (they panic otherwise); `p2pkh` does not -/
+theorem segwit_key_must_be_compressed (H : CtorHashes) (pk : BtcKey) (bl : Option (List Nat)) (p : Gen.AddrParamsB) :
+    (pk.compressed = false → p2wpkh H pk bl p = .panic Gen.p2wpkhExpectMsg ∧ p2shwpkh H pk bl p = .panic Gen.p2wpkhExpectMsg) ∧
+    (pk.compressed = true → p2wpkh H pk bl p = .ok ⟨p, .wit 0 (natsOfBytes (H.hash160 pk.ser)), bl⟩) ∧
+    (p2pkh H pk bl p = ⟨p, .pkh (natsOfBytes (H.hash160 pk.ser)), bl⟩) := by
+  refine ⟨fun h => ?_, fun h => ?_, rfl⟩
+  · simp [p2wpkh, p2shwpkh, wpubkeyHash, h]
+  · simp [p2wpkh, wpubkeyHash, h, version_consts.1]
+
+/-- the nested forms wrap the native ones: `p2shwpkh` is `p2sh` of the `script_pubkey` of `p2wpkh`, `p2shwsh` is
+    `p2sh` of the `script_pubkey` of `p2wsh` (same key / script, blinding key, network) -/
+theorem nested_wraps_native (H : CtorHashes) (pk : BtcKey) (script : Bytes) (bl : Option (List Nat)) (p : Gen.AddrParamsB) :
+    (∀ w s, p2wpkh H pk bl p = .ok w → scriptPubkey w = some s → p2shwpkh H pk bl p = .ok (p2sh H s bl p)) ∧
+    (∀ s, scriptPubkey (p2wsh H script bl p) = some s → p2shwsh H script bl p = .ok (p2sh H s bl p)) := by
+  constructor
+  · intro w s hw hs
+    unfold p2wpkh at hw
+    unfold p2shwpkh
+    cases hh : wpubkeyHash H pk with
+    | none => rw [hh] at hw; cases hw
+    | some hash =>
+      rw [hh] at hw
+      simp only [Res.ok.injEq] at hw
+      subst hw
+      simp only [scriptPubkey, Payload.toScript, version_consts.1, bytesOfNats_natsOfBytes] at hs
+      simp only [nested_consts.1, nestedScript_eq, hs, p2sh]
+  · intro s hs
+    unfold p2shwsh
+    simp only [scriptPubkey, p2wsh, Payload.toScript, version_consts.2.1, bytesOfNats_natsOfBytes] at hs
+    simp only [nested_consts.2, nestedScript_eq, hs, p2sh]
+
+/-- with hash functions of the right output lengths (20 / 32 bytes) every constructor returns a standard address
+    on a built-in network — so all of section (a)–(c) and `addr_roundtrip` apply to it — and the native segwit
+    ones have the v0 scripts C16's templates recognise -/
+theorem constructors_standard (H : CtorHashes) (h160 : ∀ x, (H.hash160 x).length = 20) (h256 : ∀ x, (H.sha256 x).length = 32)
+    (pk : BtcKey) (script : Bytes) (bl : Option (List Nat)) (p : Gen.AddrParamsB) (hp : p ∈ Gen.allParamsB)
+    (hb : BlinderOk P bl) :
+    WF P (p2pkh H pk bl p) ∧ WF P (p2sh H script bl p) ∧ WF P (p2wsh H script bl p) ∧
+    (∀ a, p2wpkh H pk bl p = .ok a → WF P a) ∧ (∀ a, p2shwpkh H pk bl p = .ok a → WF P a) ∧
+    (∀ a, p2shwsh H script bl p = .ok a → WF P a) := by
+  have hsh : ∀ x, PayloadStd (.sh (natsOfBytes (H.hash160 x))) := fun x =>
+    ⟨by rw [natsOfBytes_length]; exact h160 x, natsOfBytes_bytesOk _⟩
+  have hpkh : ∀ x, PayloadStd (.pkh (natsOfBytes (H.hash160 x))) := fun x =>
+    ⟨by rw [natsOfBytes_length]; exact h160 x, natsOfBytes_bytesOk _⟩
+  have hw20 : ∀ x, PayloadStd (.wit 0 (natsOfBytes (H.hash160 x))) := fun x => by
+    have := h160 x
+    refine ⟨by omega, ?_, ?_, fun _ => Or.inl ?_, natsOfBytes_bytesOk _⟩ <;> rw [natsOfBytes_length] <;> omega
+  have hw32 : ∀ x, PayloadStd (.wit 0 (natsOfBytes (H.sha256 x))) := fun x => by
+    have := h256 x
+    refine ⟨by omega, ?_, ?_, fun _ => Or.inr ?_, natsOfBytes_bytesOk _⟩ <;> rw [natsOfBytes_length] <;> omega
+  refine ⟨⟨hp, hpkh _, hb⟩, ⟨hp, hsh _, hb⟩, ⟨hp, ?_, hb⟩, ?_, ?_, ?_⟩
+  · show PayloadStd (.wit (fe32OfChar Gen.p2wshVersionChar) _)
+    rw [version_consts.2.1]; exact hw32 _
+  · intro a ha
+    unfold p2wpkh at ha
+    split at ha
+    · cases ha
+    · rename_i hash hh
+      simp only [Res.ok.injEq] at ha; subst ha
+      simp only [wpubkeyHash] at hh
+      split at hh
+      · simp only [Option.some.injEq] at hh; subst hh
+        refine ⟨hp, ?_, hb⟩
+        show PayloadStd (.wit (fe32OfChar Gen.p2wpkhVersionChar) _)
+        rw [version_consts.1]; exact hw20 _
+      · cases hh
+  · intro a ha
+    unfold p2shwpkh at ha
+    split at ha
+    · cases ha
+    · split at ha
+      · cases ha
+      · simp only [Res.ok.injEq] at ha; subst ha
+        exact ⟨hp, hsh _, hb⟩
+  · intro a ha
+    unfold p2shwsh at ha
+    split at ha
+    · cases ha
+    · simp only [Res.ok.injEq] at ha; subst ha
+      exact ⟨hp, hsh _, hb⟩
+
+/-- the extracted constants of this section are what the model's statements assume: `is_liquid` names LIQUID,
+    `AddressParams` has exactly the five compared fields, `Fe32::Q` = 0 (p2wpkh, p2wsh) and `Fe32::P` = 1 (p2tr,
+    p2tr_tweaked), the nested forms push 0 -/
+theorem ops_constants :
+    Gen.isLiquidParams = Gen.paramsLiquidB ∧
+    Gen.addressParamsFields.map (·.1) = ["p2pkh_prefix", "p2sh_prefix", "blinded_prefix", "bech_hrp", "blech_hrp"] ∧
+    fe32OfChar Gen.p2wpkhVersionChar = 0 ∧ fe32OfChar Gen.p2wshVersionChar = 0 ∧
+    fe32OfChar Gen.p2trVersionChar = 1 ∧ fe32OfChar Gen.p2trTweakedVersionChar = 1 ∧
+    Gen.p2shwpkhPushInt = 0 ∧ Gen.p2shwshPushInt = 0 := by
+  refine ⟨rfl, by decide, version_consts.1, version_consts.2.1, version_consts.2.2.1, version_consts.2.2.2,
+    nested_consts.1, nested_consts.2⟩
+
+/-! ### non-vacuity of the hypotheses above -/
+
+/-- an always-accepting key parser, a standard blinded and unblinded address, an admissible key -/
+example : let P0 : Prims := { sha256d := fun _ => [], validPk := fun _ => true }
+    WF P0 { params := Gen.paramsLiquidTestnetB, payload := .sh (List.replicate 20 9), blinder := none } ∧
+    BlinderOk P0 (some (List.replicate 33 2)) ∧
+    (Payload.sh (List.replicate 20 9)).isSegwit = false ∧ (Payload.wit 1 (List.replicate 32 7)).isSegwit = true :=
+  ⟨⟨by decide, ⟨by decide, by intro b hb; rw [List.mem_replicate] at hb; omega⟩, trivial⟩,
+   ⟨by decide, rfl, by intro b hb; rw [List.mem_replicate] at hb; omega⟩, rfl, rfl⟩
+
+/-- `is_liquid_iff` / `is_liquid_as_coded`: true on LIQUID, false on the other two, true on a parameter set that
+    is not one of the three constants but has LIQUID's values (another name, upper-case hrps) -/
+example : isLiquid ⟨Gen.paramsLiquidB, .pkh [], none⟩ = true ∧ isLiquid ⟨Gen.paramsElementsB, .pkh [], none⟩ = false ∧
+    isLiquid ⟨Gen.paramsLiquidTestnetB, .pkh [], none⟩ = false ∧
+    isLiquid ⟨{ Gen.paramsLiquidB with name := "custom", bechHrp := [69, 88], blechHrp := [76, 81] }, .pkh [], none⟩ = true ∧
+    isLiquid ⟨{ Gen.paramsLiquidB with blinded := 13 }, .pkh [], none⟩ = false := by decide
+
+/-- `p2tr_*`: a 32-byte key; an EC record under which `tap_tweak` succeeds; `new_key_spend` succeeds -/
+example : (List.replicate 32 (5 : UInt8)).length = 32 ∧
+    let E : Taproot.EC := ⟨fun _ => true, fun _ => true, fun _ _ => some (List.replicate 32 6, true), fun _ _ _ _ => true⟩
+    let H : Taproot.TapHashes := ⟨id, id, id⟩
+    Taproot.tapTweak E H (List.replicate 32 5) none = .ok (List.replicate 32 6, true) ∧
+    (∃ si, Taproot.newKeySpend E H (List.replicate 32 5) none = .ok si) ∧
+    p2tr E H (List.replicate 32 5) none none Gen.paramsElementsB
+      = .ok ⟨Gen.paramsElementsB, .wit 1 (List.replicate 32 6), none⟩ := by
+  refine ⟨by decide, by decide, ⟨_, rfl⟩, by decide⟩
+
+/-- `from_script_then_script_pubkey`, `nested_wraps_native`, `constructors_standard`: a script with an address;
+    hash functions of the right lengths; a compressed key for which `p2wpkh` succeeds and has a script -/
+example : fromScript (Taproot.p2trScript (List.replicate 32 1)) none Gen.paramsLiquidB
+      = some ⟨Gen.paramsLiquidB, .wit 1 (List.replicate 32 1), none⟩ ∧
+    let H : CtorHashes := ⟨fun _ => List.replicate 20 3, fun _ => List.replicate 32 4⟩
+    (∀ x, (H.hash160 x).length = 20) ∧ (∀ x, (H.sha256 x).length = 32) ∧
+    (p2wpkh H ⟨true, List.replicate 33 2⟩ none Gen.paramsLiquidB = .ok ⟨Gen.paramsLiquidB, .wit 0 (List.replicate 20 3), none⟩ ∧
+      scriptPubkey ⟨Gen.paramsLiquidB, .wit 0 (List.replicate 20 3), none⟩ = some (0x00 :: 0x14 :: List.replicate 20 3)) ∧
+    scriptPubkey (p2wsh H [0x51] none Gen.paramsLiquidB) = some (0x00 :: 0x20 :: List.replicate 32 4) := by
+  refine ⟨by decide, fun _ => rfl, fun _ => rfl, ⟨by decide, by decide⟩, by decide⟩
+
+end ops
 
 end EV.Props.C06
